@@ -7,3 +7,4 @@ import MtailVerif.Props.C14
 #print axioms MtailVerif.C14.moved_declaration_duplicates
 #print axioms MtailVerif.C14.partial_registration_counterexample
 #print axioms MtailVerif.C14.loader_skeletons
+#print axioms MtailVerif.C14.reload_with_other_buckets_starts_afresh
